@@ -528,7 +528,12 @@ func genData(t *rapid.T, depth int, jsonLike bool) dval {
 			var k dval
 			for {
 				if rapid.Bool().Draw(t, "strkey") {
-					k = dval{K: "str", S: rapid.SampledFrom([]string{"k", "name", "a b", "x", "né"}).Draw(t, "hk") + fmt.Sprint(i)}
+					if rapid.IntRange(0, 3).Draw(t, "hardkey") == 0 {
+						// keys needing an escape when printed (quote, backslash, newline, control, non-ASCII)
+						k = dval{K: "str", S: genString(t) + fmt.Sprint(i)}
+					} else {
+						k = dval{K: "str", S: rapid.SampledFrom([]string{"k", "name", "a b", "x", "né"}).Draw(t, "hk") + fmt.Sprint(i)}
+					}
 				} else {
 					k = dval{K: "sym", S: rapid.SampledFrom([]string{"k", "name", "x", "fld"}).Draw(t, "hs") + fmt.Sprint(i)}
 				}
